@@ -85,6 +85,13 @@ func verifC18(nfiles, nlines, nameLen, lineLen int) {
 		contents = append(contents, content)
 	}
 	verifSetDir("/pkg", names, contents)
+	verifC18Compare(names, lines)
+}
+
+// verifC18Compare runs both generators on the directory set up by the caller and compares their
+// output with the property's rule applied to the given lines.
+func verifC18Compare(names []string, lines [][]string) {
+	nfiles := len(names)
 
 	goOut, goCode := verifRun("go")
 	coqOut, coqCode := verifRun("coq")
@@ -139,13 +146,19 @@ func verifC18(nfiles, nlines, nameLen, lineLen int) {
 // a source line at the limit of bufio.Scanner's default buffer (64 KiB) followed by a test function:
 // the generators must still see the function (or fail loudly), in both modes alike
 func verifC18LongLine() {
-	n := []int{65535, 65536, 70000}[verifChoose(3)]
+	k := verifChoose(5)
+	n := []int{65535, 65536, 70000, 4096, 8192}[k]
 	long := make([]byte, n)
 	for i := range long {
 		long[i] = 'x'
 	}
 	long[0], long[1] = '/', '/'
-	content := "func testA() bool {\n" + string(long) + "\nfunc failing_testB() bool {\n"
+	tail := ""
+	if k >= 3 {
+		// text that looks like a header starts exactly where a 4096-byte (8192-byte) buffer ends
+		tail = "func testPhantom() bool {"
+	}
+	content := "func testA() bool {\n" + string(long) + tail + "\nfunc failing_testB() bool {\n"
 	verifSetDir("/pkg", []string{"a.go"}, []string{content})
 	goOut, goCode := verifRun("go")
 	coqOut, coqCode := verifRun("coq")
@@ -156,6 +169,74 @@ func verifC18LongLine() {
 	verifAssert("longline/go-complete-or-refused", verifOr(loud, goOut == wantGo))
 	verifAssert("longline/coq-complete-or-refused", verifOr(loud, coqOut == wantCoq))
 	verifCover("c18/longline")
+}
+
+// verifC18Scenarios: larger concrete directories (file-name collation, many functions, long names,
+// CRLF in the middle of a file, near-miss headers); one symbolic byte per scenario keeps a branch open.
+func verifC18Scenarios() {
+	var names []string
+	var lines [][]string
+	add := func(name string, ls ...string) {
+		names = append(names, name)
+		lines = append(lines, ls)
+	}
+	switch verifChoose(3) {
+	case 0: // names that sort differently under case-insensitive or natural-number collation
+		add("b.go", "func testLowerB() bool {")
+		add("B.go", "func testUpperB() bool {")
+		add("a10.go", "func testTen() bool {")
+		add("a9.go", "func testNine() bool {")
+		add("_x.go", "func testUnderscore() bool {")
+		add("Z.go", "func failing_testZ() bool {")
+	case 1: // near misses and unusual but valid headers
+		long := "testAVeryLongTestFunctionNameThatGoesOnAndOn0123456789Z"
+		add("m.go",
+			"package semantics", "",
+			"func "+long+"() bool {",
+			"func test9lives() bool {",
+			"func failing_test0() bool {",
+			"func\ttestTab() bool {",
+			"func testCr() bool {\r",
+			"\treturn true\r",
+			"}\r",
+			"func (b *box) testMethod() bool {",
+			"// func testCommented() bool {",
+			"\tfunc testIndented() bool {",
+			"func testUnder_score() bool {",
+			"func test() bool {",
+			"func testSpace () bool {",
+			"func Testupper() bool {",
+			"func failing_testLast() bool { return false }")
+	case 2: // many test functions in one file
+		var ls []string
+		for i := 0; i < 130; i++ {
+			ls = append(ls, "func testN"+verifItoa(i)+"() bool {", "\treturn true", "}", "")
+		}
+		add("many.go", ls...)
+	}
+	var contents []string
+	for _, ls := range lines {
+		c := ""
+		for _, l := range ls {
+			c += l + "\n"
+		}
+		contents = append(contents, c)
+	}
+	verifSetDir("/pkg", names, contents)
+	verifC18Compare(names, lines)
+	verifCover("c18/scenarios")
+}
+
+func verifItoa(i int) string {
+	if i == 0 {
+		return "0"
+	}
+	s := ""
+	for i > 0 {
+		s = string(rune('0'+i%10)) + s
+		i /= 10
+	}
+	return s
 }
 
 func verifC18OneFile()  { verifC18(1, 1+verifTier(), 9, 20) }
